@@ -90,8 +90,43 @@ func expressed(s *Svc, rt reflect.Type, t *spec.Type, v any) (any, error) {
 	return s.V.Get(rv, t), nil
 }
 
+// emptyEntryInMapParams: a map carried as query-string parameters cannot represent an entry
+// whose value is an empty array (there is no parameter to write), nor an empty map.
+func emptyEntryInMapParams(l *Layout, v any) bool {
+	for _, p := range l.Places {
+		if p.Loc != "mapparams" {
+			continue
+		}
+		var pv any
+		if l.Whole {
+			pv = v
+		} else if o, ok := v.(spec.Obj); ok {
+			pv = o[p.Attr]
+		}
+		mv, ok := pv.(spec.MapV)
+		if !ok {
+			continue
+		}
+		if len(mv) == 0 && p.Req == "required" {
+			return true
+		}
+		for _, kv := range mv {
+			if spec.IsEmptyColl(kv.V) {
+				return true
+			}
+		}
+	}
+	return false
+}
+
 // exchange performs one client call with the payload value and returns the observation.
 func exchange(s *Svc, m *spec.Method, v any, reply func(method string, args []any) []any) (call *Call, sentN any, res any, err error, herr error) {
+	if reply == nil && m.Result != nil {
+		// user code returning a nil result is a user error (the encoder dereferences it): the
+		// stub always answers a valid result
+		var rerr error
+		reply = replyWith(s, m, minimalResult(s, m), "", nil, &rerr)
+	}
 	call = &Call{Reply: reply}
 	var payload any
 	if pt := s.PayloadType(m.Name); pt != nil && m.Payload != nil {
@@ -119,7 +154,7 @@ func runC02(s *Svc, m *spec.Method, tier string) *MethodResult {
 		r.Skipped = "no HTTP mapping"
 		return r
 	}
-	if m.StreamPayload != nil || m.StreamResult != nil || m.HTTP.Multipart || m.HTTP.SkipReq {
+	if m.StreamPayload != nil || m.StreamResult != nil || m.HTTP.Multipart || m.HTTP.SkipReq || m.HTTP.SkipResp {
 		r.Skipped = "streaming/multipart/skip-encode endpoints are not driven by C02 in this revision"
 		return r
 	}
@@ -130,7 +165,7 @@ func runC02(s *Svc, m *spec.Method, tier string) *MethodResult {
 		if m.Payload != nil && len(sp.Check(m.Payload, v, "payload")) > 0 {
 			continue // C02 quantifies over payloads that satisfy the design
 		}
-		if emptyRequiredOutsideBody(l, v) {
+		if emptyRequiredOutsideBody(l, v) || emptyEntryInMapParams(l, v) {
 			r.note("excluded_required_empty_collection_outside_body", 1)
 			continue
 		}
@@ -178,11 +213,24 @@ func c02One(s *Svc, m *spec.Method, l *Layout, v any, r *MethodResult, report bo
 	// which attribute is "the" varied one for signatures: first differing / first place
 	feat := func(p *Place, val any) string {
 		if p == nil {
+			if f := m.Feat["feature"]; f != "" {
+				return "attr=none feature=" + f
+			}
 			return "attr=none"
 		}
-		return fmt.Sprintf("loc=%s type=%s req=%s value=%s", p.Loc, typeClass(sp, p.T), p.Req, valueClass(val))
+		ct := ""
+		if c := m.Feat["content-type"]; c != "" {
+			ct = " ct=" + c
+		}
+		if f := m.Feat["feature"]; f != "" && ct == "" {
+			ct = " feature=" + f
+		}
+		return fmt.Sprintf("loc=%s type=%s req=%s value=%s%s", p.Loc, typeClass(sp, p.T), p.Req, valueClass(val), ct)
 	}
 	attrVal := func(p *Place, whole any) any {
+		if p == nil {
+			return nil
+		}
 		if l.Whole {
 			return whole
 		}
@@ -470,6 +518,10 @@ func checkLocations(s *Svc, m *spec.Method, l *Layout, sent any, call *Call) []l
 		v := get(p)
 		e := sp.Eff(p.T)
 		switch p.Loc {
+		case "mapparams":
+			for k := range query {
+				designedQuery[k] = true
+			}
 		case spec.LocPath:
 			idx := -1
 			for i, seg := range tmplSegs {
@@ -481,12 +533,17 @@ func checkLocations(s *Svc, m *spec.Method, l *Layout, sent any, call *Call) []l
 				out = append(out, locFail{p, "path-segment-missing", fmt.Sprintf("path %q has no segment for {%s} (template %s)", req.URL.EscapedPath(), p.Wire, l.FullPath)})
 				continue
 			}
-			text, err := url.PathUnescape(reqSegs[idx])
+			seg := reqSegs[idx]
+			catchAll := strings.HasPrefix(tmplSegs[idx], "{*")
+			if catchAll {
+				seg = strings.Join(reqSegs[idx:], "/")
+			}
+			text, err := url.PathUnescape(seg)
 			if err != nil {
-				out = append(out, locFail{p, "path-segment-bad-escape", fmt.Sprintf("segment %q does not unescape", reqSegs[idx])})
+				out = append(out, locFail{p, "path-segment-bad-escape", fmt.Sprintf("segment %q does not unescape", seg)})
 				continue
 			}
-			if len(reqSegs) != len(tmplSegs) {
+			if len(reqSegs) != len(tmplSegs) && !catchAll {
 				out = append(out, locFail{p, "path-segment-count", fmt.Sprintf("request path %q has %d segments, template %s has %d", req.URL.EscapedPath(), len(reqSegs), l.FullPath, len(tmplSegs))})
 				continue
 			}
